@@ -312,9 +312,68 @@ def fail(contract, x, observed, expected, klass):
                       '    print(d.footnotes); print(r.render(d))' % x}
 
 
+def adjacent_cases():
+    """Runs of 2-3 definitions on consecutive lines (one Footnote.read group) with matching and
+    non-matching labels, before or after the use, at top level / in a quote / in a list item.
+    Expected: the FIRST definition in document order whose normalised label matches wins."""
+    prefixes = [('', ''), ('> ', '<blockquote>'), ('- ', '<ul><li>')]
+    for fam in FAMILIES:
+        labs = [l for l in fam if '\n' not in l]
+        for u in labs:
+            for l1 in labs + [OTHER]:
+                for l2 in labs + [OTHER]:
+                    for l3 in (None, labs[0]):
+                        group = [l1, l2] + ([l3] if l3 else [])
+                        for pre, _ in prefixes:
+                            for before in (True, False):
+                                yield u, group, pre, before
+
+
+def work_adjacent(task, tier, seed):
+    stats = {'evaluations': 0, 'distinct_nontrivial': 0, 'contract_evaluations': 0, 'failures': [], 'samples': []}
+    with HtmlRenderer() as r:
+        for u, group, pre, before in adjacent_cases():
+            cont = pre if pre != '- ' else '  '
+            deflines = ['%s[%s]: /u%d "t%d"' % ((pre if i == 0 and (before or True) else cont), lab, i + 1, i + 1)
+                        for i, lab in enumerate(group)]
+            use = '[%s]' % u
+            if before:
+                lines = deflines + [cont.rstrip() if cont.strip() else '', cont + use]
+            else:
+                lines = [pre + use, cont.rstrip() if cont.strip() else ''] + [cont + l[len(pre):] if i == 0 else l for i, l in enumerate(deflines)]
+                lines = [pre + use, cont.rstrip() if cont.strip() else ''] + [cont + '[%s]: /u%d "t%d"' % (lab, i + 1, i + 1) for i, lab in enumerate(group)]
+            md = '\n'.join(lines) + '\n'
+            key = normalize_label(u)
+            hit = next((i for i, lab in enumerate(group) if normalize_label(lab) == key), None)
+            stats['evaluations'] += 1
+            stats['contract_evaluations'] += 1
+            stats['distinct_nontrivial'] += 1 if hit is not None else 0
+            if stats['evaluations'] == 7:
+                stats['samples'].append(md)
+            try:
+                got = r.render(Document(md))
+            except RecursionError:
+                raise
+            except Exception as e:  # noqa
+                reset_state()
+                stats['failures'].append(fail('noraise', md, '%s: %s' % (type(e).__name__, e), 'no exception', 'c01:' + type(e).__name__))
+                continue
+            if hit is None:
+                ok = '<a ' not in got and ('[%s]' % u) in got
+                want = 'literal [%s], no link' % u
+            else:
+                want = '<a href="/u%d" title="t%d">%s</a>' % (hit + 1, hit + 1, u)
+                ok = want in got and got.count('<a ') == 1
+            if not ok:
+                stats['failures'].append(fail('c07-adjacent-group', md, got, want,
+                                              'adjacent-definitions-first-does-not-win' if hit is not None else 'unmatched-reference-not-literal'))
+    return stats
+
+
 def work(arg):
     task, tier, seed = arg
-    st = work_placement(task, tier, seed) if task[0] == 'placement' else work_scanner(task)
+    st = work_placement(task, tier, seed) if task[0] == 'placement' else (
+        work_adjacent(task, tier, seed) if task[0] == 'adjacent' else work_scanner(task))
     by_class = {}
     for f in st['failures']:
         by_class[f['class']] = by_class.get(f['class'], 0) + 1
@@ -323,7 +382,7 @@ def work(arg):
 
 
 def run(tier, seed, workers):
-    ts = placement_tasks() + scanner_tasks(tier)
+    ts = placement_tasks() + [('adjacent',)] + scanner_tasks(tier)
     ts = [t for i in range(8) for t in ts[i::8]]
     res = pool_map(work, [(t, tier, seed) for t in ts], workers)
     out = merge(res)
@@ -333,7 +392,7 @@ def run(tier, seed, workers):
         for k, v in r['by_class'].items():
             by_class[k] = by_class.get(k, 0) + v
     out.update({
-        'domain': 'placement: %d documents = %d skeletons x hosts {paragraph, ATX, setext} x 6 reference forms x label triples '
+        'domain': 'adjacent groups: runs of 2-3 definitions on consecutive lines x matching/non-matching labels x {top level, quote, list item} x {before, after the use}; placement: %d documents = %d skeletons x hosts {paragraph, ATX, setext} x 6 reference forms x label triples '
                   '(use, def1, def2|none) from 4 families of matching spellings + a non-matching label x every pair of block '
                   'boundaries at every nesting level x %s of 6 title/destination styles%s; scanner: %d strings over '
                   '{[ ] : < > " \' ( ) \\ a space newline}: all up to length 5 and all up to length %d with a "[" before a "]:"'
